@@ -21,6 +21,12 @@ CLS_SAME_NAME = "same-bare-type-name-in-two-packages"
 CLS_ENUM30 = "openapi-3.0-non-string-enum-values-emitted-as-strings"
 CLS_RFC = "rfc7807-component-without-a-plain-error-route"
 CLS_YAML31 = "openapi-3.1-string-enum-values-retyped-by-yaml"
+CLS_FORMDESCR = "openapi-3.0-form-field-description-written-through-ref"
+# The 3.0 generator writes the description of a @FormField parameter of a named type into the shared
+# component (patches/fix-C07-form-field-description-through-ref.diff).  The deliberate instance runs once
+# the finding is listed in known_findings.json (or VERIF_C07_FORM_DESCRIPTION=1); after the fix has landed
+# make it unconditional.
+FORM_DESCRIPTION_VARIANT = True   # unconditional since the fix landed in /repo
 
 YAML_WORDS = {"true", "false", "yes", "no", "on", "off", "y", "n", "null", "nan", "inf"}
 
@@ -115,6 +121,14 @@ def neutralise(spec, version, u):
 
 # ------------------------------------------------------------------ metamorphic variants
 
+def set_validate(d, fi, value):
+    """Set the validate tag of a field - and of the other names of its declaration, which share the tag."""
+    f = d["fields"][fi]
+    for g in d["fields"]:
+        if g is f or (f.get("grp") is not None and g.get("grp") == f.get("grp")):
+            g["validate"] = value
+
+
 def variants_of(rng, u):
     """[(kind, variant universe, names whose component may legitimately change, F9 target or None)]"""
     out = []
@@ -134,7 +148,7 @@ def variants_of(rng, u):
         di, fi, n = rng.choice(sites)
         v = copy.deepcopy(u)
         f = v["decls"][di]["fields"][fi]
-        f["validate"] = "" if "required" in (f["validate"] or "") else "required"
+        set_validate(v["decls"][di], fi, "" if "required" in (f["validate"] or "") else "required")
         if f["type"][0] == "named" and f["type"][1:] == [u["decls"][di]["pkg"], u["decls"][di]["name"]]:
             pass
         else:
@@ -146,8 +160,22 @@ def variants_of(rng, u):
         di, fi, n = rng.choice(enum_sites)
         e = T.find_decl(u, n[1], n[2])
         v = copy.deepcopy(u)
-        v["decls"][di]["fields"][fi]["validate"] = "oneof=" + e["consts"][0][2].split(" ")[0]
+        set_validate(v["decls"][di], fi, "oneof=" + e["consts"][0][2].split(" ")[0])
         out.append(("field-oneof", v, {u["decls"][di]["name"]}, e["name"]))
+    # `dive,oneof=` on a collection of a named enum: the base gets the field without a tag
+    enums = [d for d in u["decls"] if d["kind"] == "enum" and T.dive_tag(rng, d)]
+    hosts = [di for di, d in enumerate(u["decls"]) if d["kind"] == "struct" and (d["pkg"], d["name"]) in reach
+             and d["pkg"] != "other"]
+    if enums and hosts:
+        e = rng.choice(enums)
+        if e["pkg"] != "other" or True:
+            di = rng.choice(hosts)
+            ty = rng.choice([["slice", T.named(e["pkg"], e["name"])], ["map", T.prim("string"), T.named(e["pkg"], e["name"])]])
+            base2, v = copy.deepcopy(u), copy.deepcopy(u)
+            for w, tag in ((base2, ""), (v, T.dive_tag(rng, e))):
+                w["decls"][di]["fields"].append({"name": "DiveProbe", "embedded": False, "json": "diveProbe",
+                                                 "validate": tag, "type": ty})
+            out.append(("field-dive", v, {u["decls"][di]["name"]}, e["name"], base2))
     # usage-site tag on a $ref-typed route parameter
     psites = []
     for ci, c in enumerate(u["ctrls"]):
@@ -177,6 +205,19 @@ def variants_of(rng, u):
                                     "validate": None})
         v["ctrls"][0]["routes"].append(route)
         out.append(("extra-route", v, set(), None))
+    # a described @FormField parameter of a named type (the description must stay at the usage site)
+    if FORM_DESCRIPTION_VARIANT:
+        cand = [d for d in u["decls"] if d["kind"] in ("enum", "alias") and d["pkg"] != "ctl"]
+        if cand:
+            d = rng.choice(cand)
+            v = copy.deepcopy(u)
+            v["ctrls"][0]["routes"].append(
+                {"name": "MForm", "verb": "POST", "path": "/form/route", "hidden": False,
+                 "params": [{"name": "fx", "loc": "form", "alias": None, "type": T.named(d["pkg"], d["name"]),
+                             "validate": None, "descr": "the form field's own words"}],
+                 "ret": None, "err": None if returns_plain_error(u) else T.all_routes(u)[0]["err"], "errors": [],
+                 "security": []})
+            out.append(("form-param-described", v, set(), d["name"]))
     return out
 
 
@@ -189,7 +230,7 @@ def components_of(spec):
 def same_named_universe():
     P = T.prim
     return {"cfg": {"title": "API", "version": "1.0.0", "base_url": "https://api.example.com",
-                    "schemes": [{"name": "sec1", "type": "apiKey", "in": "header", "field": "x-sec1"}], "default": None},
+                    "schemes": [{"name": "sec1", "type": "apiKey", "in": "header", "field": "x-sec1", "flows": []}], "default": None},
             "decls": [{"pkg": "types", "name": "User", "kind": "struct",
                        "fields": [{"name": "A", "embedded": False, "json": "a", "validate": "", "type": P("string")}]},
                       {"pkg": "other", "name": "User", "kind": "struct",
@@ -210,23 +251,52 @@ def custom_error_universe(rng):
     return u
 
 
+OAUTH_SCHEME = {"name": "oauthy", "type": "oauth2", "in": "", "field": "", "flows": [
+    {"kind": "implicit", "auth": "https://auth.example.com/authorize", "token": "", "scopes": [["read", "Read access"]]},
+    {"kind": "clientCredentials", "auth": "", "token": "https://auth.example.com/token",
+     "scopes": [["write", "Write access"], ["admin", "Admin access"]]}]}
+
+
 def tricky_universe():
-    """Unexported / json:"-" / nameless-json fields and YAML-sensitive enum values in one small universe (they are in the random stream too)."""
+    """Unexported / json:"-" / nameless-json fields, YAML-sensitive enum values, enum constants in a second
+    file (both packages), multi-name declarations of mixed visibility, dive tags on collections of an enum and
+    an oauth2 scheme with different scopes per flow, in one small universe (they are in the random stream too)."""
     P = T.prim
+    N = T.named
+
+    def fld(name, ty, json=None, validate="", grp=None):
+        f = {"name": name, "embedded": False, "json": json, "validate": validate, "type": ty}
+        if grp:
+            f["grp"] = grp
+        return f
     return {"cfg": {"title": "API", "version": "1.0.0", "base_url": "https://api.example.com",
-                    "schemes": [{"name": "sec1", "type": "apiKey", "in": "header", "field": "x-sec1"}], "default": None},
-            "decls": [{"pkg": "types", "name": "Ver", "kind": "enum", "base": "string",
+                    "schemes": [{"name": "sec1", "type": "apiKey", "in": "header", "field": "x-sec1", "flows": []},
+                                copy.deepcopy(OAUTH_SCHEME)], "default": None},
+            "decls": [{"pkg": "types", "name": "Ver", "kind": "enum", "base": "string", "split": None,
                        "consts": [["VerA", '"1"', "1"], ["VerB", '"true"', "true"], ["VerC", '"x"', "x"]]},
-                      {"pkg": "types", "name": "Hidden", "kind": "struct",
-                       "fields": [{"name": "Z", "embedded": False, "json": None, "validate": "", "type": P("int")}]},
+                      {"pkg": "types", "name": "Status", "kind": "enum", "base": "string", "split": 2,
+                       "consts": [["StatusNew", '"new"', "new"], ["StatusPaid", '"paid"', "paid"],
+                                  ["StatusHeld", '"on-hold"', "on-hold"], ["StatusBack", '"refunded"', "refunded"]]},
+                      {"pkg": "other", "name": "Prio", "kind": "enum", "base": "int", "split": 1,
+                       "consts": [["PrioLow", "1", "1"], ["PrioHigh", "5", "5"], ["PrioUrgent", "9", "9"]]},
+                      {"pkg": "types", "name": "Hidden", "kind": "struct", "fields": [fld("Z", P("int"))]},
+                      {"pkg": "types", "name": "Dim", "kind": "struct", "fields": [fld("N", P("int"), "n")]},
+                      {"pkg": "types", "name": "Unit", "kind": "alias", "assigned": False, "rhs": P("string")},
                       {"pkg": "types", "name": "Box", "kind": "struct", "fields": [
-                          {"name": "raw", "embedded": False, "json": None, "validate": "", "type": T.named("types", "Hidden")},
-                          {"name": "Skip", "embedded": False, "json": "-", "validate": "", "type": P("string")},
-                          {"name": "Opt", "embedded": False, "json": ",omitempty", "validate": "required", "type": P("int")},
-                          {"name": "V", "embedded": False, "json": "v", "validate": "", "type": T.named("types", "Ver")}]}],
-            "ctrls": [{"name": "Ctl", "prefix": "", "security": [], "routes": [
+                          fld("raw", N("types", "Hidden")),
+                          fld("Skip", P("string"), "-"),
+                          fld("Opt", P("int"), ",omitempty", "required"),
+                          fld("V", N("types", "Ver"), "v"),
+                          fld("Width", P("float64"), grp="g1"), fld("Height", P("float64"), grp="g1"),
+                          fld("area", P("float64"), grp="g1"),
+                          fld("min", N("types", "Dim"), grp="g2"), fld("Max", N("types", "Dim"), grp="g2"),
+                          fld("unitA", N("types", "Unit"), grp="g3"), fld("UnitB", N("types", "Unit"), grp="g3"),
+                          fld("St", N("types", "Status"), "st"),
+                          fld("Sts", ["slice", N("types", "Status")], "sts", "dive,oneof=new"),
+                          fld("ByPrio", ["map", P("string"), N("other", "Prio")], "byPrio", "dive,oneof=5")]}],
+            "ctrls": [{"name": "Ctl", "prefix": "", "security": [{"name": "oauthy", "scopes": ["read"]}], "routes": [
                 {"name": "M0", "verb": "GET", "path": "/a", "hidden": False, "params": [],
-                 "ret": T.named("types", "Box"), "err": None, "errors": [], "security": []}]}]}
+                 "ret": N("types", "Box"), "err": None, "errors": [], "security": []}]}]}
 
 
 # ------------------------------------------------------------------ main
@@ -303,21 +373,25 @@ def main():
                 continue
             singles.append(("random", u))
             k += 1
-        nb = 8 if quick else 60
+        nb = 6 if quick else 50
+        quota = {"field-tag": nb, "field-oneof": max(2, nb // 3), "field-dive": max(3, nb // 2), "param-tag": nb,
+                 "extra-route": nb, "form-param-described": 1 if quick else 4}
+        wanted = [k2 for k2 in quota if k2 != "form-param-described" or FORM_DESCRIPTION_VARIANT]
         tries = 0
         got = {}
-        while len(pairs) < 4 * nb and tries < 20 * nb:
+        while tries < 20 * nb:
             tries += 1
             u = T.gen_universe(rng, {})
             if has_same_named(u):
                 continue
-            for kind, v, allowed, tgt in variants_of(rng, u):
-                if got.get(kind, 0) >= (nb if kind != "field-oneof" else max(1, nb // 4)):
+            for var in variants_of(rng, u):
+                kind, v, allowed, tgt = var[:4]
+                base = var[4] if len(var) > 4 else u
+                if got.get(kind, 0) >= quota[kind]:
                     continue
                 got[kind] = got.get(kind, 0) + 1
-                pairs.append((kind, u, v, allowed, tgt))
-            if all(got.get(k2, 0) >= (nb if k2 != "field-oneof" else max(1, nb // 4))
-                   for k2 in ("field-tag", "field-oneof", "param-tag", "extra-route")):
+                pairs.append((kind, base, v, allowed, tgt))
+            if all(got.get(k2, 0) >= quota[k2] for k2 in wanted):
                 break
 
     # ---- run the real CLI on everything
@@ -484,7 +558,12 @@ def main():
                       "before": {n: ca[n] for n in diff}, "after": {n: cb.get(n) for n in diff},
                       "claim": "a type's schema is a function of its declaration alone: adding a validator at one "
                                "usage site or one more route must not change the shared component"}
-            res.violation(replay)
+            if kind == "form-param-described" and ver == "3.0.0" and diff == [tgt] and not missing:
+                class_hits[CLS_FORMDESCR] = class_hits.get(CLS_FORMDESCR, 0) + 1
+                report_known_or_violation({CLS_FORMDESCR}, "the description of component %s is replaced by the "
+                                          "description of a @FormField parameter of that type (3.0.0 only)" % tgt, replay)
+            else:
+                res.violation(replay)
 
     # ---- evidence
     raw = [i for i, m in enumerate(meta) if m[2] == "raw"]
